@@ -205,23 +205,20 @@ Proof. exact QuoteProofs.quote_huge_siglen_is_err. Qed.
 Print Assumptions quote_huge_siglen_is_err.
 
 (* ---------- database key formats (go/common/keyformat) and fixed-size helpers ---------- *)
-(* KeyFormat.Decode is NOT total: it panics exactly on an empty key, on a key
-   with the format's prefix that is shorter than the format's fixed size, and
-   when more values than layout elements are passed.  Callers must guarantee
-   the precondition (they do where keys come from prefix iteration over the
-   local database; transaction.ValidateIOWriteLog does not). *)
+(* KeyFormat.Decode as of the pinned tree (fix 4b7c32a): an empty key or a key
+   shorter than the format does not match; the only remaining panic is the
+   programmer error of passing more values than the layout has. *)
 Theorem keyformat_decode_panics_iff : forall prefix layout nvals data s, wf_layout layout ->
   (fst (kf_decode prefix layout nvals data s) = Panic <->
-   data = [] \/
-   (nth 0 data 0 = prefix /\ (N.of_nat (length layout) < nvals \/ glen data < kf_size layout))).
+   data <> [] /\ nth 0 data 0 = prefix /\ N.of_nat (length layout) < nvals).
 Proof. exact keyformat_decode_panics_iff_l. Qed.
 Print Assumptions keyformat_decode_panics_iff.
 
-Theorem keyformat_decode_total_refuted :
-  exists prefix layout nvals data,
-    wf_layout layout /\ fst (run (kf_decode prefix layout nvals data)) = Panic.
-Proof. exact keyformat_decode_total_refuted_l. Qed.
-Print Assumptions keyformat_decode_total_refuted.
+Theorem keyformat_decode_total : forall prefix layout nvals data s, wf_layout layout ->
+  nvals <= N.of_nat (length layout) ->
+  fst (kf_decode prefix layout nvals data s) <> Panic.
+Proof. exact keyformat_decode_total_l. Qed.
+Print Assumptions keyformat_decode_total.
 
 Theorem keyformat_decode_bounded : forall prefix layout nvals data s, wf_layout layout ->
   fst (kf_decode prefix layout nvals data s) <> Panic ->
@@ -229,6 +226,23 @@ Theorem keyformat_decode_bounded : forall prefix layout nvals data s, wf_layout 
   (forall e, fst (kf_decode prefix layout nvals data s) <> Err e).
 Proof. exact keyformat_decode_bounded_l. Qed.
 Print Assumptions keyformat_decode_bounded.
+
+(* the function BEFORE the fix panicked also on an empty key and on a short key
+   with the matching prefix: exact characterisation and the witness "T" for
+   the transaction key format of the runtime I/O tree *)
+Theorem keyformat_decode_original_panics_iff : forall prefix layout nvals data s, wf_layout layout ->
+  (fst (kf_decode_original prefix layout nvals data s) = Panic <->
+   data = [] \/
+   (nth 0 data 0 = prefix /\ (N.of_nat (length layout) < nvals \/ glen data < kf_size layout))).
+Proof. exact keyformat_decode_original_panics_iff_l. Qed.
+Print Assumptions keyformat_decode_original_panics_iff.
+
+Theorem keyformat_decode_original_total_refuted :
+  exists prefix layout nvals data,
+    wf_layout layout /\ nvals <= N.of_nat (length layout) /\
+    fst (run (kf_decode_original prefix layout nvals data)) = Panic.
+Proof. exact keyformat_decode_original_total_refuted_l. Qed.
+Print Assumptions keyformat_decode_original_total_refuted.
 
 (* hash.Hash, common.Namespace, address.Address, signature.PublicKey/RawSignature,
    db/api.TypedHash, sgx.MrEnclave/MrSigner, keyformat.PreHashed, artifactKind *)
